@@ -160,6 +160,8 @@ def _ref_functions(m, semantics):
         for a in els:
             for b in els:
                 rho[(a, b)] = wrap(dens_fs_defn(a, b)) if ('%s->%s' % (a, b)) in m['dens'] else zero
+                if m.get('shared_density'):
+                    rho[(a, b)] = wrap(dens_defn(b))        # a conventional EAM model in Finnis-Sinclair form: the density depends on the neighbour only
     else:
         rho = {e: (wrap(dens_defn(e)) if e in m['dens'] else zero) for e in els}
 
@@ -205,6 +207,10 @@ def api_option_models(fs):
             out.append(dict(base, comments=c, comments_tuple=bool((i + j) % 2)))
         for t in TITLES:
             out.append(dict(base, title=t))
+        if len(els) > 1:
+            # the caller's list names every interaction both ways round (for a in species: for b in species: Potential(a, b, ...)) - one block per unordered pair
+            out.append(dict(base, pairs=[list(p) for p in up] + [[b_, a_] for a_, b_ in up if a_ != b_], both_ways=True))
+            out.append(dict(base, pairs=[[b_, a_] for a_, b_ in up if a_ != b_] + [list(p) for p in up], both_ways=True))
         out.append(dict(base, assign_after=True))
         out.append(dict(base, numpy_returns=True))
         out.append(dict(base, guarded=True))
@@ -218,6 +224,8 @@ def api_option_models(fs):
             out.append(dict(base, dens=allp, lazy_mapping='missing'))
             out.append(dict(base, dens=allp[1:], lazy_mapping='missing'))
             out.append(dict(base, dens=allp, dict_filled_later=True))
+            out.append(dict(base, dens=allp, shared_density='same-object'))
+            out.append(dict(base, dens=allp, shared_density='equal-copies'))
     return out
 
 
@@ -423,10 +431,14 @@ def _api_objects(m, order=None):
         def api_defn(d):   # noqa
             f = R.api_defn(d)
             return lambda x: numpy.array(f(x))
+    shared = dict((b, api_defn(dens_defn(b))) for b in els) if m.get('shared_density') else None
     for el in els:
         Z, mass, a, lat = ref_meta(m, el, 'api')
         emb = api_defn(embed_defn(el)) if el in m['embed'] else pf.zero()
-        if m['fs'] and m.get('lazy_mapping') == 'missing':
+        if shared is not None:
+            # ONE dictionary object handed to every EAMPotential ('same-object'), or one dictionary per potential holding the same function objects
+            dens = shared if m['shared_density'] == 'same-object' else dict(shared)
+        elif m['fs'] and m.get('lazy_mapping') == 'missing':
             dens = MissingDensities(el, [b for b in els], m, api_defn)
         elif m['fs'] and m.get('lazy_mapping'):
             dens = LazyDensities(el, [b for b in els], m, api_defn)
